@@ -100,7 +100,7 @@ CLAIMED = {
              'for each, the fault positions are enumerated completely. I/O-error clause: write_record raised, archive bytes equal '
              'the pre-append bytes exactly, no journal left. Kill clause: archive is the old or the new valid record sequence, or a '
              'journal naming the pre-append length exists and truncation restores the old archive; a new recorder refuses to start '
-             'while the journal exists. Drawn histories before the append: numbered files, a roll-over that failed with an I/O error, archive names with glob characters, an empty or dotted base name, and the close of a second (appending) run.',
+             'while the journal exists. Drawn histories before the append: numbered files, a roll-over that failed with an I/O error, archive names with glob characters, an empty or dotted base name, the close of a second (appending) run, a fresh (non-appending) start over an existing archive, and a kill while a failed append is being undone.',
         note='Trusted: refs/warc.py; kill = loss of Python-level buffers only (bytes given to raw write() survive), cross-checked '
              'against real kills on a sample each run; one fault per append; failure of the journal unlink itself is waived.'),
     'C14': dict(
@@ -122,7 +122,7 @@ CLAIMED = {
              'reply shapes, error replies at every step, 226-before-EOF / EOF-before-226 / simultaneous, data connection reset, '
              'missing or negative completion. Oracle: control bytes split at CRLF give exactly one line per issued command with no '
              'CR/LF inside and no unexpected verb; Reply objects equal the reference assembler per connection and across '
-             'segmentations; success only after data EOF and a 226 (negative completions may carry a bare CR followed by what looks like a 226).',
+             'segmentations; success only after data EOF and a 226 (negative completions may carry a bare CR followed by what looks like a 226, follow a line without a code, or be a 2xx that is no completion); what the session announces to its listeners (end_transfer) is judged like what it returns.',
         note='Trusted: refs/ftp.py. read_reply is observed through a logging subclass; active mode, TLS and REST are not exercised.'),
     'C16': dict(
         level='exploration', engine='web', design_ref='4/C16',
